@@ -1,4 +1,5 @@
 import PyxisVerif.Props.C15
+import PyxisVerif.Props.CaseLift
 #print axioms PyxisVerif.C15.type_singleton
 #print axioms PyxisVerif.C15.enum_singleton
 #print axioms PyxisVerif.C15.struct_getter_emitted
@@ -9,3 +10,11 @@ import PyxisVerif.Props.C15
 #print axioms PyxisVerif.C15.extern_accessor_emitted
 #print axioms PyxisVerif.C15.extern_value_type
 #print axioms PyxisVerif.C15.getter_semantics
+#print axioms PyxisVerif.C15.case_type_singleton
+#print axioms PyxisVerif.C15.case_enum_singleton
+#print axioms PyxisVerif.C15.case_struct_getter_emitted
+#print axioms PyxisVerif.C15.case_enum_getter_emitted
+#print axioms PyxisVerif.C15.case_no_singleton_no_getter
+#print axioms PyxisVerif.C15.case_extern_value_address
+#print axioms PyxisVerif.C15.case_extern_accessor_emitted
+#print axioms PyxisVerif.C15.case_file_accessors
